@@ -2,7 +2,7 @@
    configuration-independent invariants (Frame.v) and the phase invariant
    (Phase.v); table lemmas over gen/NegTables.v. *)
 From Coq Require Import ZifyBool ZifyNat ZifyN.
-From XV Require Import lib.Bytes gen.NegTables C02.Model C02.Frame C02.Phase.
+From XV Require Import lib.Bytes gen.NegTables gen.C02Restart C02.Model C02.Frame C02.Phase C02.Adv.
 
 (* ------------------------------------------------------------------ tables *)
 
@@ -27,6 +27,17 @@ Lemma builtin_features_admitted hs dom :
   c02_config (mkCfg [starttls_feature; sasl_feature; bind_feature] hs dom) = true /\
   c02_config (mkCfg [bind_feature; sasl_feature; starttls_feature] hs dom) = true /\
   gated starttls_feature = true /\ gated sasl_feature = true /\ gated bind_feature = true.
+Proof. vm_compute. auto. Qed.
+
+(* session.go's restart block does what [reset_stream] and [switch_layer] model:
+   s.features and s.negotiated are each emptied by a loop over themselves, and
+   decoder and encoder are made anew on the new connection *)
+Definition clears (x : bytes) : bool :=
+  existsb (fun p => bytes_eqb (fst p) x && bytes_eqb (snd p) x) restart_clears.
+
+Lemma restart_block_as_modelled :
+  clears (str "features") = true /\ clears (str "negotiated") = true /\
+  restart_renews_decoder = true /\ restart_renews_encoder = true.
 Proof. vm_compute. auto. Qed.
 
 (* ------------------------------------------------------------------ clear-text wire *)
@@ -119,3 +130,21 @@ Lemma servername_is_configured ss n0 :
   Forall2 (fun s r => Forall (fun n => n = n0) (server_names (trace r)))
           ss (run_sessions (Some n0) ss).
 Proof. exact (run_sessions_names ss (Some n0)). Qed.
+
+(* ------------------------------------------------------------------ Session.Feature on the protected stream *)
+
+Lemma features_from_protected_stream_only tee c fv bits clear tls outs choices :
+  let r := run tee c fv bits clear tls outs choices in
+  switched (trace r) = true ->
+  incl (m_adv (r_state r)) (adv_spaces (ins_of (after_switch (trace r)))) /\
+  incl (m_adv (r_state r)) (adv_spaces tls).
+Proof. exact (run_adv tee c fv bits clear tls outs choices). Qed.
+
+Lemma established_features_from_tls tee c fv bits clear tls outs choices :
+  c02_config c = true -> c02_bits bits = true ->
+  let r := run tee c fv bits clear tls outs choices in
+  r_class r = ROk -> incl (m_adv (r_state r)) (adv_spaces tls).
+Proof.
+  intros Hc Hb r Hok. destruct (ready_implies_tls tee c fv bits clear tls outs choices Hc Hb Hok) as (Hsw & _).
+  exact (proj2 (run_adv tee c fv bits clear tls outs choices Hsw)).
+Qed.
